@@ -240,7 +240,7 @@ def run(chk, model_ok=True):
     # never emits a request whose msgData is not the encrypted scoped PDU
     from props import c13
     n_cli = 0
-    for key_, script_, r_, why_ in c13.client_cases(rng, 12 if quick else 300):
+    for key_, script_, r_, why_ in c13.client_cases(rng, 24 if quick else 480):
         n_cli += 1
         if why_ and any(w in why_ for w in ("not encrypted", "not readable", "carries user", "failed with")):
             fail(f"{key_}: {why_}", f"# client {key_}")
